@@ -225,7 +225,7 @@ func raceCase1(c raceCase, nonce string) (tr *trace, err error) {
 			continue
 		}
 		err := handles[n].Destroy()
-		ev := mk("destroy")
+		ev := mk("rdestroy")
 		ev.H, ev.Err, ev.Errs, ev.Dirs = n, err != nil, errText(err), l.dirs()
 		tr.Ev = append(tr.Ev, ev)
 	}
